@@ -560,7 +560,13 @@ func TestVerifC08Raft(t *testing.T) {
 				res.NotExhaustive("internal deadline reached in raft scenario enumeration")
 				return
 			}
-			runOne(txc.Replay{Stack: "raft", Initial: init, Programs: progs, Schedule: append([]int{}, s...)})
+			ini := init
+			for _, p := range progs {
+				if txc.RepeatedListing(p) {
+					ini = txc.RichInitial()
+				}
+			}
+			runOne(txc.Replay{Stack: "raft", Initial: ini, Programs: progs, Schedule: append([]int{}, s...)})
 		})
 		res.Add("states", 1)
 		if work%37 == 0 {
@@ -575,7 +581,7 @@ func TestVerifC08Raft(t *testing.T) {
 	// (1) all pairs of a 16-template subset, lag <= 2
 	sub := c08Pick("r(a)w(b)", "r(b)w(a)", "l(d/)w(d/x)", "l(d/)w(d/y)", "w(a)", "rmw(a)", "d(a)", "ro:l(d/)r(a)",
 		"w(d/y)l(d/)", "d(d/x)l(d/)", "lp(,a,1)w(b)", "lp(d/,,1)w(d/z)", "ro:w(a)", "r(a)w(b)rollback",
-		"lp(d/,,2)lp(d/,,1)w(b)", "lp(d/,,1)lp(d/,,2)w(b)", "l(d/)lp(d/,,1)w(b)",
+		"lp(d/,,3)lp(d/,,1)w(b)", "lp(d/,,1)lp(d/,,3)w(b)", "l(d/)lp(d/,,1)w(b)", "pdel(d/z)", "pput(d/yy)",
 		"pput(a)", "pput(d/y)", "pdel(a)", "pput(b)pget(a)", "pput(b,'')")
 	if vout.Thorough() {
 		sub = txc.Templates()
